@@ -7,6 +7,7 @@ def allOps : List (String × (V → R V)) :=
   ++ gaeOps
   ++ tabularOps
   ++ wrappersOps
+  ++ replayOps
 
 def dispatch (op : String) (a : V) : R V :=
   match allOps.find? (·.1 == op) with
